@@ -64,7 +64,7 @@ class Keyword(ILispObject, INamed):
             return True
         if other._ns is None:
             return False
-        return self._ns < other._ns or self._name < other._name
+        return (self._ns, self._name) < (other._ns, other._name)
 
     def __call__(self, m: IAssociative | IPersistentSet, default=None):
         if isinstance(m, IPersistentSet):
